@@ -97,69 +97,19 @@ structure LexSt where
 
 def tok (ty : TokType) (s : String) : Token := ⟨ty, s.toList⟩
 
-/-- One call of `NextToken` once whitespace and comments have been skipped:
-    `c` is `l.ch`, `cs` what follows.  Returns the token, the remaining input and
-    the new `prevToken.Type`. -/
-def lexOne (prev : TokType) (c : Char) (cs : List Char) : Token × List Char × TokType :=
-  let two (second : Char) (ty2 : TokType) (lit2 : String) (otherwise : Token) : Token × List Char × TokType :=
-    match cs with
-    | d :: cs' => if d == second then (tok ty2 lit2, cs', ty2) else (otherwise, cs, otherwise.ty)
-    | [] => (otherwise, cs, otherwise.ty)
-  let one (ty : TokType) : Token × List Char × TokType := (⟨ty, [c]⟩, cs, ty)
-  if c == '&' then two '&' .AND "&&" ⟨.NONE, []⟩
-  else if c == '|' then two '|' .OR "||" ⟨.NONE, []⟩
-  else if c == '=' then two '=' .EQ "==" ⟨.ASSIGN, [c]⟩
-  else if c == ';' then one .SEMICOLON
-  else if c == '(' then one .LPAREN
-  else if c == ')' then one .RPAREN
-  else if c == ',' then one .COMMA
-  else if c == '.' then two '.' .DOTDOT ".." ⟨.PERIOD, [c]⟩
-  else if c == '+' then
-    match cs with
-    | '+' :: cs' => (tok .PLUSPLUS "++", cs', .PLUSPLUS)
-    | '=' :: cs' => (tok .PLUSEQUALS "+=", cs', .PLUSEQUALS)
-    | _ => one .PLUS
-  else if c == '%' then one .MOD
-  else if c == '√' then one .SQRT
-  else if c == '{' then one .LBRACE
-  else if c == '}' then one .RBRACE
-  else if c == '[' then one .LSQUARE
-  else if c == ']' then one .RSQUARE
-  else if c == '-' then
-    match cs with
-    | '-' :: cs' => (tok .MINUSMINUS "--", cs', .MINUSMINUS)
-    | '=' :: cs' => (tok .MINUSEQUALS "-=", cs', .MINUSEQUALS)
-    | _ => one .MINUS
-  else if c == '/' then
-    if slashDivAfter.contains prev then
-      two '=' .SLASHEQUALS "/=" ⟨.SLASH, [c]⟩
-    else
-      match readRegexp cs [] with
-      | (.ok s, rest) => (⟨.REGEXP, s⟩, rest, prev)
-      | (.error _, rest) => (⟨.ILLEGAL, []⟩, rest, prev)
-  else if c == '*' then
-    match cs with
-    | '*' :: cs' => (tok .POW "**", cs', .POW)
-    | '=' :: cs' => (tok .ASTERISKEQUALS "*=", cs', .ASTERISKEQUALS)
-    | _ => one .ASTERISK
-  else if c == '?' then one .QUESTION
-  else if c == ':' then one .COLON
-  else if c == '<' then two '=' .LTEQUALS "<=" ⟨.LT, [c]⟩
-  else if c == '>' then two '=' .GTEQUALS ">=" ⟨.GT, [c]⟩
-  else if c == '~' then two '=' .CONTAINS "~=" ⟨.NONE, []⟩
-  else if c == '!' then
-    match cs with
-    | '=' :: cs' => (tok .NOTEQ "!=", cs', .NOTEQ)
-    | '~' :: cs' => (tok .MISSING "!~", cs', .MISSING)
-    | _ => one .BANG
-  else if c == '"' || c == '\'' then
-    match readString c cs [] with
-    | (some s, rest) => (⟨.STRING, s⟩, rest.tail, .STRING)
-    | (none, rest) => (⟨.ILLEGAL, []⟩, rest.tail, .ILLEGAL)
-  else if c == nul then
-    -- a NUL inside the input (the end of input is handled by `nextToken`)
-    (⟨.ILLEGAL, []⟩, cs, prev)
-  else if isDigit c then
+abbrev LexOut := Token × List Char × TokType
+
+/-- a two-rune operator if the next rune is `second`, otherwise the one-rune token `otherwise` -/
+def two (cs : List Char) (second : Char) (ty2 : TokType) (lit2 : String) (otherwise : Token) : LexOut :=
+  match cs with
+  | d :: cs' => if d == second then (tok ty2 lit2, cs', ty2) else (otherwise, cs, otherwise.ty)
+  | [] => (otherwise, cs, otherwise.ty)
+
+def one (c : Char) (cs : List Char) (ty : TokType) : LexOut := (⟨ty, [c]⟩, cs, ty)
+
+/-- the `default:` arm of NextToken's switch: numbers, identifiers/keywords, illegal characters -/
+def lexWord (prev : TokType) (c : Char) (cs : List Char) : LexOut :=
+  if isDigit c then
     let (intPart, r1) := spanChars isDigit (c :: cs)
     match r1 with
     | '.' :: d :: r2 =>
@@ -174,6 +124,73 @@ def lexOne (prev : TokType) (c : Char) (cs : List Char) : Token × List Char × 
     else
       let ty := lookupIdentifier ident
       (⟨ty, ident⟩, r, ty)
+
+/-- strings, the NUL rune, `? : < > ~ !` -/
+def lexC (prev : TokType) (c : Char) (cs : List Char) : LexOut :=
+  if c == '?' then one c cs .QUESTION
+  else if c == ':' then one c cs .COLON
+  else if c == '<' then two cs '=' .LTEQUALS "<=" ⟨.LT, [c]⟩
+  else if c == '>' then two cs '=' .GTEQUALS ">=" ⟨.GT, [c]⟩
+  else if c == '~' then two cs '=' .CONTAINS "~=" ⟨.NONE, []⟩
+  else if c == '!' then
+    match cs with
+    | '=' :: cs' => (tok .NOTEQ "!=", cs', .NOTEQ)
+    | '~' :: cs' => (tok .MISSING "!~", cs', .MISSING)
+    | _ => one c cs .BANG
+  else if c == '"' || c == '\'' then
+    match readString c cs [] with
+    | (some s, rest) => (⟨.STRING, s⟩, rest.tail, .STRING)
+    | (none, rest) => (⟨.ILLEGAL, []⟩, rest.tail, .ILLEGAL)
+  else if c == nul then
+    -- a NUL inside the input (the end of input is handled by `nextToken`)
+    (⟨.ILLEGAL, []⟩, cs, prev)
+  else lexWord prev c cs
+
+/-- `% √ { } [ ] - / *` -/
+def lexB (prev : TokType) (c : Char) (cs : List Char) : LexOut :=
+  if c == '%' then one c cs .MOD
+  else if c == '√' then one c cs .SQRT
+  else if c == '{' then one c cs .LBRACE
+  else if c == '}' then one c cs .RBRACE
+  else if c == '[' then one c cs .LSQUARE
+  else if c == ']' then one c cs .RSQUARE
+  else if c == '-' then
+    match cs with
+    | '-' :: cs' => (tok .MINUSMINUS "--", cs', .MINUSMINUS)
+    | '=' :: cs' => (tok .MINUSEQUALS "-=", cs', .MINUSEQUALS)
+    | _ => one c cs .MINUS
+  else if c == '/' then
+    if slashDivAfter.contains prev then
+      two cs '=' .SLASHEQUALS "/=" ⟨.SLASH, [c]⟩
+    else
+      match readRegexp cs [] with
+      | (.ok s, rest) => (⟨.REGEXP, s⟩, rest, prev)
+      | (.error _, rest) => (⟨.ILLEGAL, []⟩, rest, prev)
+  else if c == '*' then
+    match cs with
+    | '*' :: cs' => (tok .POW "**", cs', .POW)
+    | '=' :: cs' => (tok .ASTERISKEQUALS "*=", cs', .ASTERISKEQUALS)
+    | _ => one c cs .ASTERISK
+  else lexC prev c cs
+
+/-- One call of `NextToken` once whitespace and comments have been skipped:
+    `c` is `l.ch`, `cs` what follows.  Returns the token, the remaining input and
+    the new `prevToken.Type`.  (`& | = ; ( ) , . +` here, the rest in `lexB`, `lexC`, `lexWord`.) -/
+def lexOne (prev : TokType) (c : Char) (cs : List Char) : LexOut :=
+  if c == '&' then two cs '&' .AND "&&" ⟨.NONE, []⟩
+  else if c == '|' then two cs '|' .OR "||" ⟨.NONE, []⟩
+  else if c == '=' then two cs '=' .EQ "==" ⟨.ASSIGN, [c]⟩
+  else if c == ';' then one c cs .SEMICOLON
+  else if c == '(' then one c cs .LPAREN
+  else if c == ')' then one c cs .RPAREN
+  else if c == ',' then one c cs .COMMA
+  else if c == '.' then two cs '.' .DOTDOT ".." ⟨.PERIOD, [c]⟩
+  else if c == '+' then
+    match cs with
+    | '+' :: cs' => (tok .PLUSPLUS "++", cs', .PLUSPLUS)
+    | '=' :: cs' => (tok .PLUSEQUALS "+=", cs', .PLUSEQUALS)
+    | _ => one c cs .PLUS
+  else lexB prev c cs
 
 /-- skip whitespace and `//` comments (`NextToken`'s prologue, including its
     recursive call after a comment) -/
